@@ -7,7 +7,7 @@ use tracing_core::{
 };
 use tracing_subscriber::{
     layer::{Context, Filter},
-    registry::LookupSpan,
+    registry::{LookupSpan, SpanRef},
     Layer,
 };
 
@@ -152,6 +152,20 @@ impl Storage {
     }
 }
 
+/// Span extension mapping capture layers (identified by their storage) to the ID of the span
+/// in the corresponding storage. A single extension is shared among all capture layers
+/// in a subscriber since span extensions are keyed by type.
+#[derive(Debug, Default)]
+struct CapturedSpanIds(Vec<(usize, CapturedSpanId)>);
+
+impl CapturedSpanIds {
+    fn get(&self, key: usize) -> Option<CapturedSpanId> {
+        self.0
+            .iter()
+            .find_map(|&(other_key, id)| (other_key == key).then_some(id))
+    }
+}
+
 /// Shared wrapper for tracing [`Storage`].
 #[derive(Debug, Clone)]
 pub struct SharedStorage {
@@ -239,6 +253,16 @@ where
             .map_or(true, |filter| filter.enabled(metadata, ctx))
     }
 
+    /// Key identifying this layer in [`CapturedSpanIds`].
+    fn key(&self) -> usize {
+        Arc::as_ptr(&self.storage) as usize
+    }
+
+    fn captured_id<'a, R: LookupSpan<'a>>(&self, span: &SpanRef<'a, R>) -> Option<CapturedSpanId> {
+        let extensions = span.extensions();
+        extensions.get::<CapturedSpanIds>()?.get(self.key())
+    }
+
     fn lock(&self) -> impl ops::DerefMut<Target = Storage> + '_ {
         self.storage
             .write()
@@ -256,18 +280,24 @@ where
         }
 
         let parent_id = if let Some(mut scope) = ctx.span_scope(id) {
-            scope.find_map(|span| span.extensions().get::<CapturedSpanId>().copied())
+            scope.find_map(|span| self.captured_id(&span))
         } else {
             None
         };
         let values = TracedValues::from_values(attrs.values());
         let arena_id = self.lock().push_span(attrs.metadata(), values, parent_id);
-        ctx.span(id).unwrap().extensions_mut().insert(arena_id);
+        let span = ctx.span(id).unwrap();
+        let mut extensions = span.extensions_mut();
+        if let Some(ids) = extensions.get_mut::<CapturedSpanIds>() {
+            ids.0.push((self.key(), arena_id));
+        } else {
+            extensions.insert(CapturedSpanIds(vec![(self.key(), arena_id)]));
+        }
     }
 
     fn on_record(&self, id: &Id, values: &Record<'_>, ctx: Context<'_, S>) {
         let span = ctx.span(id).unwrap();
-        if let Some(id) = span.extensions().get::<CapturedSpanId>().copied() {
+        if let Some(id) = self.captured_id(&span) {
             self.lock().on_record(id, TracedValues::from_record(values));
         };
     }
@@ -278,7 +308,7 @@ where
         }
 
         let parent_id = if let Some(mut scope) = ctx.event_scope(event) {
-            scope.find_map(|span| span.extensions().get::<CapturedSpanId>().copied())
+            scope.find_map(|span| self.captured_id(&span))
         } else {
             None
         };
@@ -288,21 +318,21 @@ where
 
     fn on_enter(&self, id: &Id, ctx: Context<'_, S>) {
         let span = ctx.span(id).unwrap();
-        if let Some(id) = span.extensions().get::<CapturedSpanId>().copied() {
+        if let Some(id) = self.captured_id(&span) {
             self.lock().on_span_enter(id);
         };
     }
 
     fn on_exit(&self, id: &Id, ctx: Context<'_, S>) {
         let span = ctx.span(id).unwrap();
-        if let Some(id) = span.extensions().get::<CapturedSpanId>().copied() {
+        if let Some(id) = self.captured_id(&span) {
             self.lock().on_span_exit(id);
         };
     }
 
     fn on_close(&self, id: Id, ctx: Context<'_, S>) {
         let span = ctx.span(&id).unwrap();
-        if let Some(id) = span.extensions().get::<CapturedSpanId>().copied() {
+        if let Some(id) = self.captured_id(&span) {
             self.lock().on_span_closed(id);
         };
     }
@@ -310,8 +340,8 @@ where
     fn on_follows_from(&self, id: &Id, follows_id: &Id, ctx: Context<'_, S>) {
         let span = ctx.span(id).unwrap();
         let follows = ctx.span(follows_id).unwrap();
-        if let Some(id) = span.extensions().get::<CapturedSpanId>().copied() {
-            if let Some(follows_id) = follows.extensions().get::<CapturedSpanId>().copied() {
+        if let Some(id) = self.captured_id(&span) {
+            if let Some(follows_id) = self.captured_id(&follows) {
                 self.lock().on_follows_from(id, follows_id);
             }
         };
